@@ -84,10 +84,10 @@ theorem initState_agree' (ins : List Ty) (env : List Val) (h : typedEnv ins env)
 
 /-- top level: the two inductions, started from the design with only the input pins -/
 theorem build_top {ins : List Ty} {p : Prog} {B : BState} {env0 env : List Val}
-    (hb : build p (initState ins) = some B) (hc : B.clash = false) (hρ : typedEnv ins env0)
+    (hb : build p (initState ins) = some B) (hρ : typedEnv ins env0)
     (hr : run p env0 none = some env) :
     WF B ∧ Agree env0 B.nodes B.sigs env := by
-  obtain ⟨w, _, a, _⟩ := build_active (ρ := env0) p (initState ins) B env0 env none hb hr hc (initState_wf ins)
+  obtain ⟨w, _, a, _⟩ := build_active (ρ := env0) p (initState ins) B env0 env none hb hr (initState_wf ins)
     (initState_agree' ins env0 hρ) (by intro top rest hs; simp [initState] at hs) (by intro t ht; cases ht)
   exact ⟨w, a⟩
 
@@ -107,60 +107,5 @@ theorem outputs_eq_of_agree {B : BState} {env : List Val} (h : Agree ρ B.nodes 
     obtain ⟨v, h1, h2, _⟩ := h.2 x s hs
     simp only [Option.map_some, h1]
     exact congrArg some h2
-
-/-- programs written with the `ELSEIF` macro only never raise the ghost flag -/
-def noElseIf2 : Prog → Bool
-  | .done => true
-  | .decl _ _ k => noElseIf2 k
-  | .declDefault _ _ k => noElseIf2 k
-  | .assign _ _ _ k => noElseIf2 k
-  | .ifS _ b k => noElseIf2 b && noElseIf2 k
-  | .elseS b k => noElseIf2 b && noElseIf2 k
-  | .elseifS _ b k => noElseIf2 b && noElseIf2 k
-  | .elseIf2 _ _ _ => false
-
-theorem build_noElseIf2_clash (p : Prog) : ∀ (B B' : BState), noElseIf2 p = true → build p B = some B' → B'.clash = B.clash := by
-  induction p with
-  | done => intro B B' _ h; simp [build] at h; subst h; rfl
-  | decl ty init k ihk =>
-    intro B B' hn h
-    simp only [build, Option.bind_eq_bind] at h
-    obtain ⟨B1, h1, h2⟩ := Option.bind_eq_some_iff.mp h
-    rw [ihk _ _ (by simpa [noElseIf2] using hn) h2, stepDecl_clash h1]
-  | declDefault ty d k ihk =>
-    intro B B' hn h
-    simp only [build, Option.bind_eq_bind] at h
-    obtain ⟨B1, h1, h2⟩ := Option.bind_eq_some_iff.mp h
-    rw [ihk _ _ (by simpa [noElseIf2] using hn) h2, stepDefault_clash h1]
-  | assign x p e k ihk =>
-    intro B B' hn h
-    simp only [build, Option.bind_eq_bind] at h
-    obtain ⟨B1, h1, h2⟩ := Option.bind_eq_some_iff.mp h
-    rw [ihk _ _ (by simpa [noElseIf2] using hn) h2, stepAssign_clash h1]
-  | ifS c body k ihb ihk =>
-    intro B B' hn h
-    simp only [noElseIf2, Bool.and_eq_true] at hn
-    simp only [build, Option.bind_eq_bind] at h
-    obtain ⟨B1, h1, hA⟩ := Option.bind_eq_some_iff.mp h
-    obtain ⟨B2, h2, hB⟩ := Option.bind_eq_some_iff.mp hA
-    obtain ⟨B3, h3, hC⟩ := Option.bind_eq_some_iff.mp hB
-    rw [ihk _ _ hn.2 hC, popScope_clash h3, ihb _ _ hn.1 h2, openIf_clash h1]
-  | elseS body k ihb ihk =>
-    intro B B' hn h
-    simp only [noElseIf2, Bool.and_eq_true] at hn
-    simp only [build, Option.bind_eq_bind] at h
-    obtain ⟨B1, h1, hA⟩ := Option.bind_eq_some_iff.mp h
-    obtain ⟨B2, h2, hB⟩ := Option.bind_eq_some_iff.mp hA
-    obtain ⟨B3, h3, hC⟩ := Option.bind_eq_some_iff.mp hB
-    rw [ihk _ _ hn.2 hC, popScope_clash h3, ihb _ _ hn.1 h2, openElse_clash h1]
-  | elseifS c body k ihb ihk =>
-    intro B B' hn h
-    simp only [noElseIf2, Bool.and_eq_true] at hn
-    simp only [build, Option.bind_eq_bind] at h
-    obtain ⟨B1, h1, hA⟩ := Option.bind_eq_some_iff.mp h
-    obtain ⟨B2, h2, hB⟩ := Option.bind_eq_some_iff.mp hA
-    obtain ⟨B3, h3, hC⟩ := Option.bind_eq_some_iff.mp hB
-    rw [ihk _ _ hn.2 hC, popScope_clash h3, ihb _ _ hn.1 h2, openElseIf_clash h1]
-  | elseIf2 c body k _ _ => intro B B' hn h; simp [noElseIf2] at hn
 
 end Gatery.C05
